@@ -36,7 +36,11 @@ type dcase struct {
 	// PartRead: one remote builds a backlog of about 100 KB on its connection while the handler does not read, the handler
 	// then reads part of it, the remote sends about as much again, and only then the handler reads on: the connection's
 	// receive queue grows while it holds wrapped, partly consumed data. Everything must come out, in order and intact.
-	PartRead bool  `json:"part_read,omitempty"`
+	PartRead bool `json:"part_read,omitempty"`
+	// RingEnd (with PartRead): instead of the 100 KB backlog the first datagrams of the remote are sized so that, with one
+	// of them read in between, a later one ends exactly on the last byte of the connection's 2048 / 4096 byte receive
+	// ring; then the connection is drained before more arrives
+	RingEnd  bool  `json:"ring_end,omitempty"`
 	SlowRead bool  `json:"slow_reader,omitempty"` // one remote fills its connection's receive buffer (4 MiB) while the handler does not read
 	Seed     int64 `json:"seed"`
 }
@@ -225,6 +229,7 @@ func runCase(c *dcase, r *res.Result) (string, string) {
 		}
 	}
 	read60 := make(chan struct{})
+	var read60Once sync.Once
 	release2 := make(chan struct{})
 	var release2Once sync.Once
 	defer release2Once.Do(func() { close(release2) })
@@ -324,8 +329,8 @@ func runCase(c *dcase, r *res.Result) (string, string) {
 				atomic.AddInt64(&outstanding, -int64(n))
 			}
 			r.Count("datagrams_read", 1)
-			if strict && reads == 60 {
-				close(read60)
+			if strict && (reads == 60 && !c.RingEnd || reads == 1 && c.RingEnd) {
+				read60Once.Do(func() { close(read60) })
 				<-release2
 			}
 			if closeAfter > 0 && reads >= closeAfter {
@@ -462,10 +467,11 @@ func runCase(c *dcase, r *res.Result) (string, string) {
 	}
 	if c.PartRead && victim >= 0 {
 		cl := clients[victim]
+		sizes := []int{1000}
 		burst := func(n int) bool {
 			for i := 0; i < n; i++ {
 				cl.sent++
-				cl.conn.Write(mk(cl.idx, cl.sent, 1000, false))
+				cl.conn.Write(mk(cl.idx, cl.sent, sizes[i%len(sizes)], false))
 				r.Count("datagrams_sent", 1)
 				if i%32 == 31 && !readLoopIdle() {
 					return false
@@ -473,13 +479,34 @@ func runCase(c *dcase, r *res.Result) (string, string) {
 			}
 			return readLoopIdle()
 		}
-		ok := burst(100)
+		n1, n2 := 100, 90
+		ring := []int{2048, 4096}[int(c.Seed>>8)&1]
+		a, b := 1000, 500
+		if ring == 4096 {
+			a, b = 1200, 1700 // 1202 + 1702 > 2048: the ring has grown to 4096 when the third datagram arrives
+		}
+		if c.RingEnd {
+			sizes = []int{a, b}
+			n1, n2 = 2, 1
+		}
+		ok := burst(n1)
 		releaseOnce.Do(func() { close(release) })
 		if ok {
 			select {
 			case <-read60:
-				if burst(90) {
+				if c.RingEnd {
+					sizes = []int{ring - (a + 2) - (b + 2) - 2} // header + payload end exactly on the last byte of the ring
+				}
+				if burst(n2) {
 					r.Count("part_read_phases", 1)
+					if c.RingEnd {
+						r.Count("ring_end_phases", 1)
+						// let the handler drain the connection before anything else arrives for it
+						release2Once.Do(func() { close(release2) })
+						for t0 := time.Now(); atomic.LoadUint32(&cl.lastRead) < cl.sent && time.Since(t0) < 2*time.Second; {
+							time.Sleep(50 * time.Microsecond)
+						}
+					}
 				}
 			case <-time.After(5 * time.Second):
 				// the handler did not get its 60 datagrams: the strict checks or the completeness check below say why
@@ -610,7 +637,8 @@ func genCase(rng *rand.Rand) *dcase {
 	c.Reconn = rng.Intn(3) == 0
 	c.Overflow = rng.Intn(3) == 0 && !c.Reconn && c.Filter != "skipfirst"
 	c.SlowRead = rng.Intn(6) == 0 && !c.Overflow && !c.Reconn
-	c.PartRead = !c.SlowRead && rng.Intn(5) == 0 && !c.Overflow && !c.Reconn && (c.Filter == "none" || c.Filter == "even")
+	c.PartRead = !c.SlowRead && rng.Intn(4) == 0 && !c.Overflow && !c.Reconn && (c.Filter == "none" || c.Filter == "even")
+	c.RingEnd = c.PartRead && rng.Intn(2) == 0
 	if c.Backlog < c.Clients && !c.Overflow {
 		// small backlogs are only meaningful with the overflow phase; otherwise keep room for every remote
 		c.Backlog = 128
